@@ -474,6 +474,29 @@ pub fn build_frame<T: Pixel>(op: &Op) -> Frame<T> {
             1 => (g[4] as usize, g[5] as usize),
             _ => (g[8] as usize, g[9] as usize),
         };
+        if op.consume == 2 {
+            // a window into a larger packed buffer, described through the public config fields:
+            // `xorigin`/`yorigin` samples in front, a few samples behind each row, and (mostly)
+            // the last visible row is the last row of the allocation
+            let (xo, yo) = (g[10 + 2 * pl] as usize, g[11 + 2 * pl] as usize);
+            let slack = mix(op.dataseed, 0x77 + pl as u64);
+            let stride = xo + w + (slack % 4) as usize;
+            let rows = yo + h + usize::from((slack >> 8) % 10 < 3);
+            let mut data: Vec<T> = (0..stride * rows).map(|i| T::cast_from((mix(op.padseed | 1, (pl as u64) << 40 | i as u64) & 0xffff) as u16)).collect();
+            for y in 0..h {
+                for x in 0..w {
+                    data[(y + yo) * stride + x + xo] = T::cast_from(yuv_sample(op, pl, x, y));
+                }
+            }
+            let mut p: Plane<T> = Plane::from_slice(&data, stride);
+            p.cfg.width = w;
+            p.cfg.height = h;
+            p.cfg.xorigin = xo;
+            p.cfg.yorigin = yo;
+            p.cfg.xdec = xdec;
+            p.cfg.ydec = ydec;
+            return p;
+        }
         if op.consume != 0 {
             // rows packed back to back; `from_slice` knows nothing about decimation, the public
             // config fields are set afterwards
